@@ -884,6 +884,8 @@ class Ev:
         if m == "lower":
             return s.lower()
         if m == "replace":
+            if len(args) == 3 and args[2] == 1 and isinstance(args[0], str) and isinstance(args[1], str):
+                return s.replace_first(args[0], args[1])
             a, b = args
             if isinstance(a, str) and isinstance(b, str):
                 if len(a) == 1 and len(b) == 1:
